@@ -191,12 +191,62 @@ impl C06 {
     }
 }
 
+/// directed cases: witnesses of the known findings and of repaired defects (regressions)
+fn directed(ctx: &mut Context, n: u64) -> Option<ExprRef> {
+    use crate::refsem::bv::{Bv, pow2};
+    let lit = |ctx: &mut Context, w: u32, v: num_bigint::BigUint| ctx.bv_lit(&baa_from_bv(&Bv::new(w, v)));
+    Some(match n {
+        0 => {
+            let a = ctx.bv_symbol("a129", 129);
+            let b = ctx.bv_symbol("b129", 129);
+            ctx.mul(a, b)
+        }
+        1 => {
+            let a = ctx.bv_symbol("a65", 65);
+            let k = lit(ctx, 65, 64u32.into());
+            ctx.shift_left(a, k)
+        }
+        2 => {
+            let a = ctx.bv_symbol("a129", 129);
+            let k = lit(ctx, 129, 128u32.into());
+            ctx.shift_left(a, k)
+        }
+        3 | 4 => {
+            let dw = if n == 3 { 8 } else { 70 };
+            let zero = ctx.zero(dw);
+            let five = lit(ctx, dw, 5u32.into());
+            let i0 = ctx.zero(1);
+            let i1 = ctx.one(1);
+            let base = ctx.array_const(zero, 1);
+            let s0 = ctx.array_store(base, i0, five);
+            let s1 = ctx.array_store(s0, i1, five);
+            let c5 = ctx.array_const(five, 1);
+            ctx.equal(s1, c5)
+        }
+        5 | 6 | 7 => {
+            // repaired: ugte on equal multi-word operands
+            let w = [65, 100, 129][(n - 5) as usize];
+            let a = ctx.bv_symbol("a", w);
+            ctx.greater_or_equal(a, a)
+        }
+        8 => {
+            let a = lit(ctx, 128, pow2(127));
+            let b = ctx.bv_symbol("b128", 128);
+            let x = ctx.greater_or_equal(a, b);
+            let y = ctx.greater_or_equal(b, a);
+            ctx.and(x, y)
+        }
+        _ => return None,
+    })
+}
+const N_DIRECTED: u64 = 9;
+
 impl Check for C06 {
     fn id(&self) -> &'static str {
         "C06"
     }
     fn work(&self, tier: Tier) -> Vec<WorkItem> {
-        vec![WorkItem { mode: "rand", count: tier.pick(40_000, 4_000_000) }]
+        vec![WorkItem { mode: "directed", count: N_DIRECTED }, WorkItem { mode: "rand", count: tier.pick(400_000, 40_000_000) }]
     }
     fn evaluations_counter(&self) -> &'static str {
         "evaluations"
@@ -210,12 +260,17 @@ impl Check for C06 {
             "release profile (debug assertions off) is the verdict build".into(),
         ]
     }
-    fn run_case(&self, sh: &mut Shard, _case: &CaseId) {
+    fn run_case(&self, sh: &mut Shard, case: &CaseId) {
         let mut rng = Rng::new(sh.case_seed());
         let mut ctx = Context::default();
         let mut cfg = GenCfg::default();
         cfg.divrem = false;
-        let (e, fam) = {
+        let (e, fam) = if case.mode == "directed" {
+            match directed(&mut ctx, case.n) {
+                Some(e) => (e, "directed"),
+                None => return,
+            }
+        } else {
             let mut g = ExprGen::new(&mut rng, cfg);
             g.top(&mut ctx)
         };
@@ -292,6 +347,6 @@ impl Check for C06 {
         let ops = m.hist_len("op_x_width") as u64;
         m.floor("distinct operator x width-class pairs evaluated", ops, tier.pick(150, 180));
         let sc = m.c("short_circuit_with_unbound_symbols");
-        m.floor("short-circuit cases with unbound symbols below the supplied node", sc, tier.pick(2000, 100_000));
+        m.floor("short-circuit cases with unbound symbols below the supplied node", sc, tier.pick(20_000, 1_000_000));
     }
 }
